@@ -107,7 +107,9 @@ def post_ioprio_set(I, x):
     k = g["syscall"]
     a = g["syscall.args"][0]
     c, d = g["args"][1].t, g["args"][2].t
-    out = [("ioprio_set(IOPRIO_WHO_PROCESS, pid, class<<13 | data)",
+    out = [("the system call is made only with a word the kernel reads back as (class, data): class in 0..7, data in "
+            "0..0x1fff (16-bit ioprio; wider values are masked by the kernel)", Z.And(c >= 0, c <= 7, d >= 0, d <= 0x1fff)),
+           ("ioprio_set(IOPRIO_WHO_PROCESS, pid, class<<13 | data)",
             Z.And(a[1].t == 1, a[2].t == g["args"][0].t, a[3].t == ((c << 13) | d))),
            # round trip: what ioprio_get would unpack from the packed word is (class, data)
            ("unpack(pack(class, data)) == (class, data)",
@@ -196,6 +198,26 @@ AFF_GET = cvc.CContract(
          "reported CPU has its bit set")
 C_CONTRACTS.append(AFF_GET)
 CPROOFS = C_CONTRACTS
+
+
+def table_rlimit_constants():
+    """every integer constant the extension modules export is the C macro of the same name (RLIMIT_* and friends reach
+    prlimit() through these values)"""
+    import os
+    import re
+    repo = os.environ.get("VERIF_REPO", "/repo")
+    out = []
+    for f in ("psutil/_psutil_posix.c", "psutil/_psutil_linux.c"):
+        txt = open(os.path.join(repo, f)).read()
+        for m in re.finditer(r'PyModule_AddIntConstant\(\s*mod\s*,\s*"(\w+)"\s*,\s*([^)]+?)\s*\)', txt):
+            name, expr = m.group(1), m.group(2).strip()
+            ok = expr == name or (name == "version" and expr == "PSUTIL_VERSION")
+            out.append((f"{f}: constant '{name}' is registered with the macro of the same name", ok,
+                        f"registered with {expr}"))
+    return out
+
+
+TABLES = [table_rlimit_constants]
 
 
 # =================================================================================================================
